@@ -77,6 +77,10 @@ func (a *adapter) Flight(key, cmd string, ttl time.Duration, now time.Time) (Red
 		return RedisMessage{}, flight
 	}
 	a.mu.Lock()
+	if v := a.store.Get(key + cmd); v.typ != 0 && v.relativePTTL(now) > 0 { // stored by another caller's reply since the read lock was released
+		a.mu.Unlock()
+		return v, nil
+	}
 	entries := a.flights[key]
 	if entries == nil && a.flights != nil {
 		entries = make(map[string]CacheEntry, 1)
